@@ -264,7 +264,9 @@ class _Positions:
         self.W, self.p = W, p
 
     def __vc_loop__(self):
-        return SymIter(z3.Select(self.W.held, self.p), lambda k: SymKey(k))
+        it = SymIter(z3.Select(self.W.held, self.p), lambda k: SymKey(k))
+        it.owner = self.p          # role binding for loop objects: whose positions are iterated, whatever the code calls it
+        return it
 
     def __vc_in__(self, k):
         return SymBool(z3.Select(z3.Select(self.W.held, self.p), liftk(k)))
